@@ -185,9 +185,11 @@ pub fn open_store(cfg: &Config, path: Option<&str>) -> feoxdb::Result<FeoxStore>
     if let Some(p) = path {
         b = b.device_path(p.to_string()).file_size(cfg.dev.blocks() * 4096).enable_caching(cfg.cache);
     }
-    feoxdb::verif::set_force_plain_io(cfg.plain_io);
     let _g = env::watch("open");
-    b.build()
+    env::with_visible_cpus(cfg.visible_cpus as usize, || {
+        feoxdb::verif::set_thread_force_plain_io(Some(cfg.plain_io));
+        b.build()
+    })
 }
 
 /// Create the device file for a case: nothing for v3 (feoxdb creates it), a released-format
@@ -231,6 +233,10 @@ pub struct Runner<'a> {
     // flush demand estimate (blocks) for admissible OutOfSpace
     blocks_since_flush: u64,
     pub keep_file: bool,
+    pub readback_policy: Option<u64>,
+    /// key touched by the last call step (for history building)
+    pub last_touched: Option<Vec<u8>>,
+    pub marks: Option<crate::trace::DeviceRef>,
 }
 
 fn key_id_of(case: &Case, key: &[u8]) -> u16 {
@@ -239,16 +245,22 @@ fn key_id_of(case: &Case, key: &[u8]) -> u16 {
 
 impl<'a> Runner<'a> {
     pub fn new(case: &'a Case, flags: &'a Flags) -> Result<Self, String> {
-        let cfg = case.cfg.clone();
-        let now = T0 + case.t0_offset;
-        feoxdb::verif::set_thread_clock(Some(now));
-        let path = if cfg.persistent {
+        let path = if case.cfg.persistent {
             let p = env::fresh_path("seq");
-            prepare_device(&cfg, &p);
+            prepare_device(&case.cfg, &p);
             Some(p)
         } else {
             None
         };
+        Self::with_path(case, flags, path, None)
+    }
+
+    /// `path` must already be prepared (legacy image or empty file); `marks` receives
+    /// drop/open marks of clean reopens.
+    pub fn with_path(case: &'a Case, flags: &'a Flags, path: Option<String>, marks: Option<crate::trace::DeviceRef>) -> Result<Self, String> {
+        let cfg = case.cfg.clone();
+        let now = T0 + case.t0_offset;
+        feoxdb::verif::set_thread_clock(Some(now));
         let store = open_store(&cfg, path.as_deref()).map_err(|e| format!("open failed: {e:?}"))?;
         let model = Model {
             persistent: cfg.persistent,
@@ -283,6 +295,9 @@ impl<'a> Runner<'a> {
             freed_blocks: Default::default(),
             blocks_since_flush: 0,
             keep_file: false,
+            readback_policy: None,
+            last_touched: None,
+            marks,
         })
     }
 
@@ -1224,7 +1239,14 @@ impl<'a> Runner<'a> {
         {
             let store = self.store.take().unwrap();
             let _g = env::watch("drop for reopen");
+            if let Some(m) = &self.marks {
+                crate::trace::mark(m, crate::trace::Mark::DropBegin);
+            }
             drop(store);
+            if let Some(m) = &self.marks {
+                crate::trace::mark(m, crate::trace::Mark::DropEnd);
+                crate::trace::mark(m, crate::trace::Mark::OpenBegin);
+            }
         }
         if let Some(c) = cache {
             self.cfg.cache = c;
@@ -1241,6 +1263,9 @@ impl<'a> Runner<'a> {
             }
         };
         self.store = Some(store);
+        if let Some(m) = &self.marks {
+            crate::trace::mark(m, crate::trace::Mark::OpenEnd);
+        }
         let before = self.model.map.len();
         self.model.reopen(self.cfg.ttl);
         if self.model.map.len() != before {
@@ -1257,9 +1282,24 @@ impl<'a> Runner<'a> {
     }
 
     pub fn run(&mut self) -> Option<Failure> {
-        let policy = self.case.t0_offset % 3; // 0: read back everything every step, 1: touched key, 2: end only
         let ops = self.case.ops.clone();
         for (step, op) in ops.iter().enumerate() {
+            if let Some(f) = self.step(step, op) {
+                return Some(f);
+            }
+        }
+        if self.flags.readback {
+            if let Err(f) = self.readback_all(ops.len(), "the last step") {
+                return Some(f);
+            }
+        }
+        None
+    }
+
+    /// Execute one generated op (resolve, call, judge). Returns the failure, if any.
+    pub fn step(&mut self, step: usize, op: &Op) -> Option<Failure> {
+        let policy = self.readback_policy.unwrap_or(self.case.t0_offset % 3); // 0: everything every step, 1: touched key, 2: end only
+        {
             feoxdb::verif::set_thread_clock(Some(self.model.now));
             *self.stats.ops.entry(op.name()).or_insert(0) += 1;
             self.stats.steps = step + 1;
@@ -1295,6 +1335,7 @@ impl<'a> Runner<'a> {
                 other => {
                     let call = self.resolve(other).unwrap();
                     touched = call.key().map(|k| k.to_vec());
+                    self.last_touched = touched.clone();
                     // near-expiry classification
                     if let Some(g) = touched.as_ref().and_then(|k| self.model.map.get(k)) {
                         if g.expiry > 0 && self.model.ttl {
@@ -1345,11 +1386,6 @@ impl<'a> Runner<'a> {
             }
             if self.stats.has("auto_after_failed_explicit") {
                 self.failed_explicit_pending = false;
-            }
-        }
-        if self.flags.readback {
-            if let Err(f) = self.readback_all(ops.len(), "the last step") {
-                return Some(f);
             }
         }
         None
